@@ -200,11 +200,11 @@ static G element(const std::string& thc, const std::string& linc, const std::str
     Eigen::Matrix<S, 4, 1> q; q << (S)(ax(0) * std::sin(th / 2)), (S)(ax(1) * std::sin(th / 2)), (S)(ax(2) * std::sin(th / 2)), (S)std::cos(th / 2);
     q.normalize();
     if (th == 3.14159265358979323846) { q(3) = (S)0; q.normalize(); }   // the half turn exactly: w == 0
-    bool neg = hemi == "neg" || hemi == "negdn" || (hemi == "any" && r.i(0, 1));
+    bool neg = hemi == "neg" || hemi == "negdn" || ((hemi == "any" || hemi == "anydn") && r.i(0, 1));
     if (neg) q = -q;
     for (int k = 0; k < 4; ++k) c(I::coff + k) = q(k);
   }
-  if (hemi == "posdn" || hemi == "negdn") {
+  if (hemi == "posdn" || hemi == "negdn" || hemi == "anydn") {
     // valid but not exactly normalised: squared norm off by at most 0.8 * Constants::eps (the constructor accepts up to eps)
     const S k = (S)(1.0 + 0.4 * (double)manif::Constants<S>::eps * r.u(0.2, 1.0) * r.sign());
     const int nrot = I::rot == COMPLEX ? 2 : I::rot == QUAT ? 4 : 0;
